@@ -172,6 +172,22 @@ Lemma cg_unsupported i :
   (exists k, In k (cg_ids i) /\ api_from_instruction (nth k (cg_ops i) qpd_desc) = Refused) ->
   api_cut_gates i = Refused.
 Proof. intros H1 H2. unfold api_cut_gates. apply andthen_rif_refused. now apply cg_check_refused. Qed.
+Lemma cg_check_not_ok ops ids k :
+  In k ids -> (forall d, nth_error ops k = Some d -> api_from_instruction d = Refused) -> cg_check ops ids <> Proceeds.
+Proof.
+  induction ids as [|k0 r IH]; intros Hin H; [destruct Hin|]. simpl.
+  destruct (nth_error ops k0) as [d|] eqn:E; [|congruence].
+  destruct Hin as [-> | Hin].
+  - rewrite E in H. rewrite (H d eq_refl). simpl. congruence.
+  - destruct (api_from_instruction d) as [[]| |]; simpl; [now apply IH | congruence | congruence].
+Qed.
+Lemma cg_unsupported_total i k :
+  In k (cg_ids i) -> (forall d, nth_error (cg_ops i) k = Some d -> api_from_instruction d = Refused) ->
+  api_cut_gates i <> Proceeds.
+Proof.
+  intros H1 H2. pose proof (cg_check_not_ok _ _ _ H1 H2) as H. unfold api_cut_gates.
+  destruct (refuse_if _) as [[]| |]; simpl; congruence.
+Qed.
 Lemma cg_frame i : api_cut_gates i <> Proceeds -> cg_final i = repeat false (length (cg_ops i)).
 Proof. intro H. unfold cg_final. destruct (api_cut_gates i) as [[]| |]; [congruence | reflexivity | reflexivity]. Qed.
 Lemma cg_check_valid ops ids :
@@ -234,8 +250,42 @@ Lemma pp_none_label i l k q :
   nth q l None = None -> api_partition_problem i = Refused.
 Proof.
   intros Hl Hk Hq Hn. unfold api_partition_problem. do 4 apply andthen_rif_refused. rewrite Hl.
-  unfold pcq_loop. apply andthen_rif_refused. apply rif_true. unfold none_label_used.
-  eapply existsb_nth_true; [exact Hk|]. apply existsb_exists. exists q. split; [exact Hq | now rewrite Hn].
+  unfold pcq_loop. apply andthen_rif_refused.
+  assert (E : none_label_used l (pp_insts i) = true).
+  { unfold none_label_used. eapply existsb_nth_true; [exact Hk|]. apply existsb_exists. exists q.
+    split; [exact Hq | now rewrite Hn]. }
+  now rewrite E.
+Qed.
+Lemma idle_observable_true (l : list label) support j q :
+  j < length support -> In q (nth j support []) -> nth q l None = None -> idle_observable l support = true.
+Proof.
+  intros Hj Hq Hn. unfold idle_observable. apply (existsb_nth_true _ support j [] Hj).
+  apply existsb_exists. exists q. split; [exact Hq | now rewrite Hn].
+Qed.
+(* fifth guard, explicit labels: the j-th observable acts on a qubit labelled None *)
+Lemma pp_idle_explicit i l o j q :
+  pp_labels i = Some l -> pp_obs i = Some o -> j < length (pp_support i) -> In q (nth j (pp_support i) []) ->
+  nth q l None = None -> api_partition_problem i = Refused.
+Proof.
+  intros Hl Ho Hj Hq Hn. unfold api_partition_problem. do 4 apply andthen_rif_refused. rewrite Hl.
+  unfold pcq_loop. do 2 apply andthen_rif_refused. unfold pp_support_eff. rewrite Ho.
+  now rewrite (idle_observable_true l _ j q Hj Hq Hn).
+Qed.
+Lemma auto_label_none nq insts q : q < nq -> touched insts q = false -> nth q (auto_labels nq insts) None = None.
+Proof.
+  intros Hq Ht. unfold auto_labels.
+  rewrite (nth_indep _ None (if touched insts (nth q (seq 0 nq) 0) then Some 0 else None)).
+  - rewrite (map_nth (fun q0 => if touched insts q0 then Some 0 else None)). rewrite seq_nth; [|exact Hq]. simpl. now rewrite Ht.
+  - rewrite map_length, seq_length. exact Hq.
+Qed.
+(* fifth guard, automatic labels: the j-th observable acts on a qubit that no instruction touches *)
+Lemma pp_idle_auto i o j q :
+  pp_labels i = None -> pp_obs i = Some o -> j < length (pp_support i) -> In q (nth j (pp_support i) []) ->
+  q < pp_nq i -> touched (pp_insts i) q = false -> api_partition_problem i = Refused.
+Proof.
+  intros Hl Ho Hj Hq Hlt Ht. unfold api_partition_problem. do 4 apply andthen_rif_refused. rewrite Hl.
+  unfold pp_support_eff. rewrite Ho.
+  now rewrite (idle_observable_true _ _ j q Hj Hq (auto_label_none _ _ _ Hlt Ht)).
 Qed.
 Lemma pp_valid i :
   match pp_labels i with Some l => length l = pp_nq i | None => True end ->
@@ -244,12 +294,14 @@ Lemma pp_valid i :
   | None => True end ->
   pp_ncregs i = 0 -> pp_nclbits i = 0 ->
   match pp_labels i with
-  | Some l => existsb (pcq_refuses l) (pp_insts i) = false /\ none_label_used l (pp_insts i) = false
-  | None => True end ->
+  | Some l => existsb (pcq_refuses l) (pp_insts i) = false /\ none_label_used l (pp_insts i) = false /\
+              idle_observable l (pp_support_eff i) = false
+  | None => idle_observable (auto_labels (pp_nq i) (pp_insts i)) (pp_support_eff i) = false end ->
   api_partition_problem i = Proceeds.
 Proof.
   intros H1 H2 H3 H4 H5. unfold api_partition_problem, has_clbits, pcq_loop. rewrite H3, H4.
-  destruct (pp_labels i) as [l|]; [rewrite H1, Nat.eqb_refl; destruct H5 as [H5 H6]; rewrite H5, H6|];
+  destruct (pp_labels i) as [l|];
+    [rewrite H1, Nat.eqb_refl; destruct H5 as [H5 [H6 H7]]; rewrite H5, H6, H7 | rewrite H5];
   (destruct (pp_obs i) as [o|]; [destruct H2 as [H2 H2']; rewrite H2, H2'|]); reflexivity.
 Qed.
 
@@ -311,7 +363,7 @@ Lemma gen_q1_unseparated i c r k :
   api_generate i = Refused.
 Proof.
   intros H1 H2 Hk H3. unfold api_generate. do 3 apply andthen_rif_refused. rewrite H1, H2. simpl.
-  unfold api_get_bases. apply rif_true. eapply existsb_nth_true; eauto.
+  unfold api_get_bases. rewrite (existsb_nth_true is_q1 c k GOther Hk H3). reflexivity.
 Qed.
 Lemma gen_label i j k :
   ge_cform i = CDict -> j < length (ge_circs i) -> k < length (nth j (ge_circs i) []) ->
@@ -319,17 +371,55 @@ Lemma gen_label i j k :
   api_generate i = Refused.
 Proof.
   intros H1 Hj Hk H3. unfold api_generate. do 3 apply andthen_rif_refused. rewrite H1.
-  unfold api_mapping_ids. apply rif_true.
-  apply (existsb_nth_true _ _ j [] Hj). eapply existsb_nth_true; eauto.
+  unfold api_mapping_ids.
+  assert (E : existsb (existsb bad_label) (ge_circs i) = true).
+  { apply (existsb_nth_true _ _ j [] Hj). eapply existsb_nth_true; eauto. }
+  now rewrite E.
+Qed.
+(* a phased observable in the dictionary form: subsystem j, position k *)
+Lemma gen_phase_dict i j k :
+  ge_cform i = CDict -> j < length (ge_phases i) -> k < length (nth j (ge_phases i) []) ->
+  nth k (nth j (ge_phases i) []) 0 <> 0 -> api_generate i = Refused.
+Proof.
+  intros H1 Hj Hk H3. unfold api_generate. do 3 apply andthen_rif_refused. rewrite H1.
+  unfold api_mapping_ids. apply andthen_rif_refused.
+  assert (E : existsb any_phase (ge_phases i) = true).
+  { apply (existsb_nth_true any_phase _ j [] Hj). unfold any_phase.
+    apply (existsb_nth_true _ _ k 0 Hk). apply Bool.negb_true_iff. apply Nat.eqb_neq. exact H3. }
+  now rewrite E.
+Qed.
+Lemma gen_tail_size t : forall k, k < length t ->
+  (forall j, j <= k -> fst (nth j t (true, true)) = true) -> snd (nth k t (true, true)) = false ->
+  gen_tail t = Refused.
+Proof.
+  induction t as [|[h z] r IH]; intros k Hk Hkeys Hs; [simpl in Hk; lia|].
+  simpl. pose proof (Hkeys 0 (Nat.le_0_l k)) as H0. simpl in H0. subst h. simpl.
+  destruct k as [|k]; [simpl in Hs; subst z; reflexivity|].
+  destruct z; simpl; [|reflexivity].
+  apply (IH k); [simpl in Hk; lia | | exact Hs].
+  intros j Hj. apply (Hkeys (S j)). lia.
+Qed.
+(* observable width differs from the (sub)circuit width, for the k-th observables label; all labels up to k
+   are keys of `circuits` (otherwise a KeyError comes first) *)
+Lemma gen_obs_size i k :
+  ge_cform i <> COther -> k < length (ge_tail i) ->
+  (forall j, j <= k -> fst (nth j (ge_tail i) (true, true)) = true) ->
+  snd (nth k (ge_tail i) (true, true)) = false -> api_generate i = Refused.
+Proof.
+  intros Hc Hk Hkeys Hs. unfold api_generate. do 3 apply andthen_rif_refused.
+  rewrite (gen_tail_size _ k Hk Hkeys Hs).
+  destruct (ge_cform i); [| |congruence]; unfold api_get_bases, api_mapping_ids;
+    repeat apply andthen_rif_refused; reflexivity.
 Qed.
 Lemma gen_valid_circuit i :
   ge_cform i = CCircuit -> ge_oform i = OPauliList -> b_ge (ge_budget i) Q1 = true ->
-  existsb is_q1 (hd [] (ge_circs i)) = false -> api_generate i = Proceeds.
-Proof. intros H1 H2 H3 H4. unfold api_generate, api_get_bases. rewrite H1, H2, H3, H4. reflexivity. Qed.
+  existsb is_q1 (hd [] (ge_circs i)) = false -> gen_tail (ge_tail i) = Proceeds -> api_generate i = Proceeds.
+Proof. intros H1 H2 H3 H4 H5. unfold api_generate, api_get_bases. rewrite H1, H2, H3, H4, H5. reflexivity. Qed.
 Lemma gen_valid_dict i :
   ge_cform i = CDict -> ge_oform i = ODict -> b_ge (ge_budget i) Q1 = true ->
-  existsb (existsb bad_label) (ge_circs i) = false -> api_generate i = Proceeds.
-Proof. intros H1 H2 H3 H4. unfold api_generate, api_mapping_ids. rewrite H1, H2, H3, H4. reflexivity. Qed.
+  existsb (existsb bad_label) (ge_circs i) = false -> existsb any_phase (ge_phases i) = false ->
+  gen_tail (ge_tail i) = Proceeds -> api_generate i = Proceeds.
+Proof. intros H1 H2 H3 H4 H5 H6. unfold api_generate, api_mapping_ids. rewrite H1, H2, H3, H4, H5, H6. reflexivity. Qed.
 
 (* ---------- reconstruct_expectation_values ---------- *)
 Lemma any_phase_nth l k : k < length l -> nth k l 0 <> 0 -> any_phase l = true.
@@ -553,45 +643,110 @@ Proof.
 Qed.
 Lemma dq_check_false c ids ms j k b n bid :
   length ids = length ms -> j < length ids -> In k (nth j ids []) ->
-  nth_error c k = Some (DQ b n bid) -> in_range (nth j ms 0%Z) n = false ->
+  nth_error c k = Some (DQ b n bid) -> map_ok (nth j ms None) n = false ->
   dq_check c (combine ids ms) = false.
 Proof.
   intros Hl Hj Hk E Hr. unfold dq_check.
   destruct (forallb _ (combine ids ms)) eqn:F; [|reflexivity]. exfalso.
   rewrite forallb_forall in F.
-  assert (Hin : In (nth j ids [], nth j ms 0%Z) (combine ids ms)).
-  { rewrite <- (combine_nth ids ms j [] 0%Z Hl). apply nth_In. rewrite combine_length. lia. }
+  assert (Hin : In (nth j ids [], nth j ms None) (combine ids ms)).
+  { rewrite <- (combine_nth ids ms j [] None Hl). apply nth_In. rewrite combine_length. lia. }
   specialize (F _ Hin). simpl in F. rewrite forallb_forall in F. specialize (F k Hk).
   unfold dq_gate_ok in F. rewrite E, Hr in F. discriminate.
 Qed.
-Lemma dq_map_range i ms j k b n bid :
+Lemma dq_map_bad i ms j k b n bid :
   api_validate_qpd (dq_circ i) (dq_ids i) = Proceeds -> dq_maps i = Some ms ->
   j < length (dq_ids i) -> In k (nth j (dq_ids i) []) -> nth_error (dq_circ i) k = Some (DQ b n bid) ->
-  (nth j ms 0 < 0 \/ Z.of_nat n <= nth j ms 0)%Z ->
+  map_ok (nth j ms None) n = false ->
   api_decompose i = Refused.
 Proof.
   intros H1 H2 Hj Hk E Hr. unfold api_decompose, dq_run. rewrite H1, H2.
   destruct (length (dq_ids i) =? length ms) eqn:L; simpl; [|reflexivity].
   apply Nat.eqb_eq in L.
-  rewrite (dq_check_false _ _ _ j k b n bid L Hj Hk E (in_range_false _ _ Hr)). reflexivity.
+  rewrite (dq_check_false _ _ _ j k b n bid L Hj Hk E Hr). reflexivity.
 Qed.
-Lemma dq_frame i : api_decompose i <> Proceeds -> dq_final i = dq_circ i.
+Lemma dq_map_range i ms j k b n bid z :
+  api_validate_qpd (dq_circ i) (dq_ids i) = Proceeds -> dq_maps i = Some ms ->
+  j < length (dq_ids i) -> In k (nth j (dq_ids i) []) -> nth_error (dq_circ i) k = Some (DQ b n bid) ->
+  nth j ms None = Some z -> (z < 0 \/ Z.of_nat n <= z)%Z ->
+  api_decompose i = Refused.
 Proof.
-  unfold api_decompose, dq_final, dq_run.
+  intros H1 H2 Hj Hk E Hz Hr. eapply dq_map_bad; eauto. rewrite Hz. simpl. now apply in_range_false.
+Qed.
+Lemma dq_map_none i ms j k b n bid :
+  api_validate_qpd (dq_circ i) (dq_ids i) = Proceeds -> dq_maps i = Some ms ->
+  j < length (dq_ids i) -> In k (nth j (dq_ids i) []) -> nth_error (dq_circ i) k = Some (DQ b n bid) ->
+  nth j ms None = None -> api_decompose i = Refused.
+Proof. intros H1 H2 Hj Hk E Hz. eapply dq_map_bad; eauto. now rewrite Hz. Qed.
+(* unset basis_id with map_ids omitted: refused, and nothing was touched *)
+Lemma dq_unset_no_maps i k b n :
+  api_validate_qpd (dq_circ i) (dq_ids i) = Proceeds -> dq_maps i = None ->
+  nth_error (dq_circ i) k = Some (DQ b n None) ->
+  api_decompose i = Refused /\ dq_final i = dq_circ i.
+Proof.
+  intros H1 H2 E. unfold api_decompose, dq_final, dq_run, dq_stage3. rewrite H1, H2. simpl. split; [|reflexivity].
+  apply rif_true. apply existsb_exists. exists (DQ b n None). split; [eapply nth_error_In; eauto | reflexivity].
+Qed.
+Lemma dq_frame_no_maps i : dq_maps i = None -> dq_final i = dq_circ i.
+Proof.
+  intro H. unfold dq_final, dq_run, dq_stage3. rewrite H.
+  destruct (api_validate_qpd (dq_circ i) (dq_ids i)) as [[]| |]; reflexivity.
+Qed.
+(* everything up to and including the map-id pre-validation leaves the argument untouched *)
+Lemma dq_frame_partial i :
+  api_decompose i <> Proceeds ->
+  (dq_maps i = None \/
+   forall ms, dq_maps i = Some ms -> existsb dq_unset (dq_assign (dq_circ i) (combine (dq_ids i) ms)) = false) ->
+  dq_final i = dq_circ i.
+Proof.
+  intros Hn [H | H]; [now apply dq_frame_no_maps|].
+  revert Hn. unfold api_decompose, dq_final, dq_run, dq_stage3.
   destruct (api_validate_qpd (dq_circ i) (dq_ids i)) as [[]| |]; simpl; auto.
-  destruct (dq_maps i) as [ms|]; simpl; auto.
-  destruct (negb _); simpl; auto. destruct (dq_check _ _); simpl; auto. congruence.
+  destruct (dq_maps i) as [ms|] eqn:M; simpl; auto.
+  destruct (negb _); simpl; auto. destruct (dq_check _ _); simpl; auto.
+  rewrite (H ms eq_refl). simpl. congruence.
 Qed.
 Lemma dq_valid_no_maps i :
-  api_validate_qpd (dq_circ i) (dq_ids i) = Proceeds -> dq_maps i = None ->
+  api_validate_qpd (dq_circ i) (dq_ids i) = Proceeds -> dq_maps i = None -> existsb dq_unset (dq_circ i) = false ->
   api_decompose i = Proceeds /\ dq_final i = dq_circ i.
-Proof. intros H1 H2. unfold api_decompose, dq_final, dq_run. rewrite H1, H2. auto. Qed.
+Proof. intros H1 H2 H3. unfold api_decompose, dq_final, dq_run, dq_stage3. rewrite H1, H2, H3. auto. Qed.
 Lemma dq_valid_maps i ms :
   api_validate_qpd (dq_circ i) (dq_ids i) = Proceeds -> dq_maps i = Some ms ->
   length (dq_ids i) = length ms -> dq_check (dq_circ i) (combine (dq_ids i) ms) = true ->
+  existsb dq_unset (dq_assign (dq_circ i) (combine (dq_ids i) ms)) = false ->
   api_decompose i = Proceeds /\ dq_final i = dq_assign (dq_circ i) (combine (dq_ids i) ms).
 Proof.
-  intros H1 H2 H3 H4. unfold api_decompose, dq_final, dq_run. rewrite H1, H2, H3, Nat.eqb_refl, H4. auto.
+  intros H1 H2 H3 H4 H5. unfold api_decompose, dq_final, dq_run, dq_stage3.
+  rewrite H1, H2, H3, Nat.eqb_refl, H4, H5. auto.
+Qed.
+(* totality: without the in-range hypothesis the call still never proceeds (ValueError or IndexError) *)
+Lemma dq_groups_not_ok c ids g : In g ids -> dq_group c g <> Proceeds -> dq_groups c ids <> Proceeds.
+Proof.
+  induction ids as [|g0 r IH]; intros Hin Hg; [destruct Hin|]. simpl.
+  destruct Hin as [-> | Hin].
+  - destruct (dq_group c g) as [[]| |]; simpl; congruence.
+  - destruct (dq_group c g0) as [[]| |]; simpl; [now apply IH | congruence | congruence].
+Qed.
+Lemma decompose_not_ok_of_group i g :
+  In g (dq_ids i) -> dq_group (dq_circ i) g <> Proceeds -> api_decompose i <> Proceeds.
+Proof.
+  intros H1 H2. pose proof (dq_groups_not_ok _ _ _ H1 H2) as H.
+  unfold api_decompose, dq_run, api_validate_qpd.
+  destruct (dq_groups (dq_circ i) (dq_ids i)) as [[]| |]; simpl; congruence.
+Qed.
+Lemma dq_members_other_total c b0 g k :
+  In k g -> nth_error c k = Some DOther -> dq_members c b0 g <> Proceeds.
+Proof.
+  induction g as [|k1 r IH]; intros Hin E; [destruct Hin|]. simpl.
+  destruct Hin as [-> | Hin]; [rewrite E; congruence|].
+  destruct (nth_error c k1) as [[b n bid|]|]; try congruence.
+  destruct (b =? b0); [now apply IH | congruence].
+Qed.
+Lemma dq_group_non_qpd_total c g k : In k g -> nth_error c k = Some DOther -> dq_group c g <> Proceeds.
+Proof.
+  intros Hin E. unfold dq_group. destruct (negb _); [congruence|].
+  destruct g as [|k0 r]; [congruence|].
+  destruct (nth_error c k0) as [[b n bid|]|]; try congruence. eapply dq_members_other_total; eauto.
 Qed.
 
 (* ---------- separate_circuit ---------- *)
